@@ -48,6 +48,11 @@ impl<T> Future for ShellRequest<T> {
         self: std::pin::Pin<&mut Self>,
         cx: &mut std::task::Context<'_>,
     ) -> std::task::Poll<Self::Output> {
+        #[cfg(crux_verif)]
+        let _verif_scope = crate::verif::lock_scope(
+            "shell_request",
+            Arc::as_ptr(&self.shared_state).cast::<()>() as usize,
+        );
         let mut shared_state = self.shared_state.lock().unwrap();
 
         // If there's still a request to send, take it and send it
@@ -101,6 +106,11 @@ where
                 return;
             };
 
+            #[cfg(crux_verif)]
+            let _verif_scope = crate::verif::lock_scope(
+                "shell_request",
+                Arc::as_ptr(&shared_state).cast::<()>() as usize,
+            );
             let mut shared_state = shared_state.lock().unwrap();
 
             // Attach the result to the shared state of the future
